@@ -82,9 +82,14 @@ func cmdFilt(args []string) int {
 			nkeys := (size + versions - 1) / versions
 			keys := filtKeys(r, shape, nkeys)
 			var es []types.Entry
-			for _, k := range keys {
+			for ki, k := range keys {
 				for v := 1; v <= versions && len(es) < size; v++ {
-					es = append(es, types.Entry{Key: types.KeyWithTs(k, uint64(v)), Value: []byte("x"), Version: int64(v)})
+					e := types.Entry{Key: types.KeyWithTs(k, uint64(v)), Value: []byte("x"), Version: int64(v)}
+					// deletions are entries too: some keys are deleted in every version, some in one
+					if ki%5 == 3 || (ki%5 == 1 && v == versions) {
+						e.Tombstone, e.Value = true, []byte{}
+					}
+					es = append(es, e)
 				}
 			}
 			flt := filter.Build(es)
@@ -111,7 +116,19 @@ func cmdFilt(args []string) int {
 				sortEntries(sorted)
 				rv := FiltEvent{Ev: "Rebuilt", N: len(es), Shape: shape}
 				if err := v.Flush(sorted); err == nil {
+					held := FiltEvent{Ev: "Held", N: len(es), Shape: shape + "/flushed", Members: len(es)}
+					if d := v.FilterDenied(); len(d) > 0 {
+						held.Denied, held.Example = len(d), d[0]
+					}
+					_ = enc.Encode(held)
+					n++
 					v.Recover()
+					held = FiltEvent{Ev: "Held", N: len(es), Shape: shape + "/recovered", Members: len(es)}
+					if d := v.FilterDenied(); len(d) > 0 {
+						held.Denied, held.Example = len(d), d[0]
+					}
+					_ = enc.Encode(held)
+					n++
 					for i, k := range keys {
 						if i%2 == 0 {
 							v.Lookup(fmt.Sprintf("absent-%d-%d", si, i), uint64(versions+1))
@@ -131,6 +148,58 @@ func cmdFilt(args []string) int {
 				n++
 			}
 		}
+	}
+	// filters built by compaction (and rebuilt after it): several overlapping tables, cascades over
+	// three levels, an advanced discard mark; after every step every filter the level manager holds
+	// must admit every entry of its table
+	for ci := 0; ci < 40; ci++ {
+		r := rand.New(rand.NewSource(mix(*seed, 5000+ci)))
+		shape := pick(r, "plain", "at", "binary", "long", "short")
+		keys := filtKeys(r, shape, 4+r.Intn(12))
+		dir := scratch("filtc")
+		v := originium.NewVerifLevels(dir, 1+r.Intn(2), 1+r.Intn(2), pick(r, 1, 64, 4096), uint64(r.Intn(12)))
+		ts, stored := 0, 0
+		ev := FiltEvent{Ev: "Held", Shape: shape + "/compacted"}
+		check := func() {
+			ev.Members += stored
+			if d := v.FilterDenied(); len(d) > 0 {
+				ev.Denied += len(d)
+				ev.Example = d[0]
+			}
+		}
+		for t := 0; t < 6+r.Intn(8); t++ {
+			var es []types.Entry
+			for _, ki := range r.Perm(len(keys))[:1+r.Intn(len(keys))] {
+				ts++
+				e := types.Entry{Key: types.KeyWithTs(keys[ki], uint64(ts)), Value: []byte("x"), Version: int64(ts)}
+				if r.Intn(4) == 0 {
+					e.Tombstone, e.Value = true, []byte{}
+				}
+				es = append(es, e)
+			}
+			sortEntries(es)
+			if err := v.Flush(es); err != nil {
+				ev.Denied++
+				ev.Example = err.Error()
+				break
+			}
+			stored += len(es)
+			check()
+			if r.Intn(3) == 0 {
+				v.SetWatermark(uint64(r.Intn(ts + 2)))
+			}
+			v.CheckAndCompact()
+			check()
+			if r.Intn(4) == 0 {
+				v.Recover()
+				check()
+			}
+		}
+		ev.N = stored
+		v.Stop()
+		os.RemoveAll(dir)
+		_ = enc.Encode(ev)
+		n++
 	}
 	bw.Flush()
 	f.Close()
